@@ -81,6 +81,23 @@ class C04(RunProp):
             c = self._float_loop(rng)
             for runner in ("sync", "async"):
                 yield {"program": c["program"], "values": c["values"], "cfg": {}, "runner": runner, "loop": None, "floatloop": c["floatloop"]}
+        # whatever the seed: the loop is entered through with_entrypoint("b1") while a node OUTSIDE the entered part (runnable on its own
+        # default, never part of the run) sits in the graph; budgets exactly at the need, one above, one below
+        n_entry = 3
+        while n_entry:
+            c = gen.gen_loop(rng, max_n=6, allow_nested_body=False)
+            seq = sequential(c["loop"])
+            if c["loop"]["family"] != "state" or seq["steps"] < 3 or c["loop"].get("separateEmitter") or c["loop"].get("twoAcc"):
+                continue
+            n_entry -= 1
+            prog = copy.deepcopy(c["program"])
+            idle = {"name": "idle_load", "kind": "fn", "params": [["path", {"d": rng.randint(0, 9)}]], "dataOuts": ["settings"], "body": {"b": "tag", "t": "idle_load"}}
+            prog[-1]["nodes"].insert(rng.randint(0, len(prog[-1]["nodes"])), idle)
+            prog[-1]["entrypoints"] = ["b1"]
+            for delta in (0, 1, -1):
+                for runner in ("sync", "async"):
+                    yield {"program": prog, "values": c["values"], "cfg": {"maxIter": max(1, seq["steps"] + delta), "errMode": rng.choice(["raise", "continue"])},
+                           "runner": runner, "loop": c["loop"]}
         forced = 4      # loops whose body runs inside a NESTED graph, under budgets at and just below the need — whatever the seed
         while True:
             c = gen.gen_loop(rng, max_n=6 if tier == "quick" else rng.choice([6, 15, 40]), allow_nested_body=True)
